@@ -78,9 +78,15 @@ def transpose_job(comm, shape, nprocs, layouts, pairs, usebuf, dtype):
     """Run the given ordered (src,dst) pairs through LayoutHandler.transpose with arrays of exactly
     bufferSize; returns per pair the decoded destination block, source-intact flag, and errors."""
     h, eta = handler_job(comm, shape, nprocs, layouts)
-    G = tokens(shape, dtype)
+    mixed = isinstance(dtype, str) and dtype == "mixed"      # ONE handler moves payloads of changing type (float, complex, integer)
+    kinds = [float, complex, np.int64]
+    if not mixed:
+        G = tokens(shape, dtype)
     out = []
-    for (src, dst) in pairs:
+    for k, (src, dst) in enumerate(pairs):
+        if mixed:
+            dtype = kinds[k % 3]
+            G = tokens(shape, dtype)
         ls, ld = h.getLayout(src), h.getLayout(dst)
         a = fresh(h.bufferSize, dtype)
         b = fresh(h.bufferSize, dtype)
